@@ -146,7 +146,7 @@ class Frame:
 
 
 class State:
-    __slots__ = ('frames', 'stack', 'pc', 'events', 'nfid', 'ret', 'steps', 'aux')
+    __slots__ = ('frames', 'stack', 'pc', 'events', 'nfid', 'ret', 'steps', 'aux', 'models')
 
     def __init__(self):
         self.frames = {}
@@ -157,6 +157,7 @@ class State:
         self.ret = None
         self.steps = 0
         self.aux = {}
+        self.models = []
         root = Frame()
         root.fid = 0
         root.fn = None
@@ -175,6 +176,7 @@ class State:
         s.ret = self.ret
         s.steps = self.steps
         s.aux = dict(self.aux)
+        s.models = list(self.models)
         return s
 
     def root(self):
@@ -250,6 +252,9 @@ class Program:
 
     def find(self, head, method):
         c = self.by_key.get((head, method))
+        if not c and head is not None and head[:1].islower():
+            # `module::function`: the dump does not always print the module prefix
+            c = self.by_key.get((None, method))
         if c and len(c) == 1:
             return c[0]
         if c:
@@ -319,8 +324,8 @@ class Executor:
     def __init__(self, program, summaries=None, timeout_ms=20000, max_steps=200000):
         self.prog = program
         self.summaries = summaries or []
-        self.solver = z3.Solver()
-        self.solver.set('timeout', timeout_ms)
+        self.timeout_ms = timeout_ms
+        self.reset_solver()
         self.queries = 0
         self.solver_time = 0.0
         self.max_steps = max_steps
@@ -331,41 +336,79 @@ class Executor:
         self.paths = 0
         self.fn_cover = {}           # fn name -> set of executed bbs
         self.call_cache = {}
+        self.cache_hits = 0
 
     # ---------------------------------------------------------------- solver
+    def lit(self, c):
+        """assumption literal for a condition: `lit => c` is asserted once, queries then only pass
+        literals, so z3 keeps its internalised terms and learned lemmas across the many similar
+        queries of one exploration"""
+        k = c.get_id()
+        e = self.lits.get(k)
+        if e is None:
+            p = z3.Bool('__p%d' % len(self.lits))
+            self.solver.add(z3.Implies(p, c))
+            e = (p, c)
+            self.lits[k] = e
+        return e[0]
+
+    def reset_solver(self, timeout_ms=None):
+        self.solver = z3.Solver()
+        self.solver.set('timeout', timeout_ms or self.timeout_ms)
+        self.lits = {}
+
+    def _assumptions(self, conds):
+        out = []
+        for c in conds:
+            if isinstance(c, (bool, int)):
+                if not c:
+                    return None
+                continue
+            out.append(self.lit(c))
+        return out
+
     def check(self, conds):
         """sat? for base assertions /\ conds (python bools allowed in conds)"""
-        cs = []
-        for c in conds:
-            if isinstance(c, bool) or isinstance(c, int):
-                if not c:
-                    return False
-                continue
-            cs.append(c)
+        a = self._assumptions(conds)
+        if a is None:
+            return False
         self.queries += 1
         t = time.time()
-        self.solver.push()
-        self.solver.add(*cs)
-        r = self.solver.check()
-        self.solver.pop()
+        r = self.solver.check(*a)
         self.solver_time += time.time() - t
         if r == z3.unknown:
             raise Inconclusive('solver returned unknown: ' + self.solver.reason_unknown())
         return r == z3.sat
 
     def model(self, conds):
-        cs = [c for c in conds if not isinstance(c, (bool, int))]
+        a = self._assumptions(conds)
+        if a is None:
+            return None
         self.queries += 1
         t = time.time()
-        self.solver.push()
-        self.solver.add(*cs)
-        r = self.solver.check()
+        r = self.solver.check(*a)
         m = self.solver.model() if r == z3.sat else None
-        self.solver.pop()
         self.solver_time += time.time() - t
         if r == z3.unknown:
-            raise Inconclusive('solver returned unknown')
+            raise Inconclusive('solver returned unknown: ' + self.solver.reason_unknown())
         return m
+
+    def holds(self, m, cond):
+        if isinstance(cond, (bool, int)):
+            return bool(cond)
+        return z3.is_true(m.eval(cond, model_completion=True))
+
+    def sat_under(self, st, cond):
+        """is st.pc /\ cond satisfiable?  -> (bool, models satisfying it).  Models known to satisfy
+        st.pc are tried first (counterexample cache), the solver only decides what they cannot."""
+        ok = [m for m in st.models if self.holds(m, cond)]
+        if ok:
+            self.cache_hits += 1
+            return True, ok
+        m = self.model(st.pc + [cond])
+        if m is None:
+            return False, []
+        return True, [m]
 
     # ---------------------------------------------------------------- memory
     def frame_of(self, st, fid):
@@ -403,7 +446,7 @@ class Executor:
         raise Inconclusive('field %d of native %s' % (n, v.tag))
 
     def store(self, st, fid, local, path, val):
-        if fid < 0:
+        if fid < 0 and fid not in st.frames:
             raise Inconclusive('write to a constant')
         fr = st.frames[fid]
         if not path:
@@ -506,6 +549,9 @@ class Executor:
         if k == 'named':
             name = c[1]
             last = [s for s in P.split_top(name, ':') if s][-1]
+            last = last.strip()
+            if last in self.discr:
+                return E(last)          # constant unit variant, e.g. `const LexerErrorKind::<E>::InvalidToken`
             cands = self.prog.consts.get(last, [])
             if len(cands) == 1:
                 return self.eval_const_fn(cands[0][1], name)
@@ -851,16 +897,20 @@ class Executor:
                 tgt = self.switch(st, v, ins[2], ins[3])
                 if not tgt:
                     return    # infeasible path (can happen after an assumption)
-                for cond, bbn in tgt[1:]:
+                for cond, bbn, ms in tgt[1:]:
                     s2 = st.fork()
                     if cond is not None:
                         s2.pc.append(cond)
+                    if ms is not None:
+                        s2.models = ms
                     f2 = s2.frames[s2.stack[-1]]
                     f2.bb, f2.si = bbn, 0
                     work.append(s2)
-                cond, bbn = tgt[0]
+                cond, bbn, ms = tgt[0]
                 if cond is not None:
                     st.pc.append(cond)
+                if ms is not None:
+                    st.models = ms
                 fr.bb, fr.si = bbn, 0
                 continue
             if k == 'call':
@@ -896,13 +946,17 @@ class Executor:
                     continue
                 good = v.v if expected else z3.Not(v.v)
                 bad = z3.Not(good)
-                if self.check(st.pc + [bad]):
+                okb, msb = self.sat_under(st, bad)
+                if okb:
                     s2 = st.fork()
                     s2.pc.append(bad)
+                    s2.models = msb
                     self.finish(results, 'panic', s2, ins[3])
-                    if not self.check(st.pc + [good]):
+                    okg, msg_ = self.sat_under(st, good)
+                    if not okg:
                         return
                     st.pc.append(good)
+                    st.models = msg_
                 fr.bb, fr.si = ins[4], 0
                 continue
             if k == 'unreachable':
@@ -916,40 +970,45 @@ class Executor:
         if v.conc():
             for kv, b in targets:
                 if (kv & mask(v.w)) == v.v:
-                    return [(None, b)]
+                    return [(None, b, None)]
                 # discriminants are produced as 64-bit two's complement; rustc prints negative
                 # ones (Ordering::Less) in the width of the enum's tag
                 if v.w == 64 and v.v >> 63 and kv in (v.v & 0xFF, v.v & 0xFFFF, v.v & 0xFFFFFFFF):
-                    return [(None, b)]
+                    return [(None, b, None)]
             if otherwise is None:
                 raise Inconclusive('switch fell through')
-            return [(None, otherwise)]
+            return [(None, otherwise, None)]
         out = []
         if v.w == 1:
             for kv, b in targets:
                 c = z3.Not(v.v) if kv == 0 else v.v
-                if self.check(st.pc + [c]):
-                    out.append((c, b))
+                ok, ms = self.sat_under(st, c)
+                if ok:
+                    out.append((c, b, ms))
             if otherwise is not None:
                 # targets is [0: ..] normally
                 neg = [(v.v if kv == 0 else z3.Not(v.v)) for kv, _ in targets]
                 c = z3.And(*neg) if len(neg) > 1 else neg[0]
-                if self.check(st.pc + [c]):
-                    out.append((c, otherwise))
+                ok, ms = self.sat_under(st, c)
+                if ok:
+                    out.append((c, otherwise, ms))
             return out
         x = v.v
         neqs = []
         for kv, b in targets:
             c = (x == (kv & mask(v.w)))
             neqs.append(x != (kv & mask(v.w)))
-            if self.check(st.pc + [c]):
-                out.append((c, b))
+            ok, ms = self.sat_under(st, c)
+            if ok:
+                out.append((c, b, ms))
         if otherwise is not None:
             c = z3.And(*neqs) if len(neqs) > 1 else (neqs[0] if neqs else None)
             if c is None:
-                out.append((None, otherwise))
-            elif self.check(st.pc + [c]):
-                out.append((c, otherwise))
+                out.append((None, otherwise, list(st.models)))
+            else:
+                ok, ms = self.sat_under(st, c)
+                if ok:
+                    out.append((c, otherwise, ms))
         return out
 
     def do_call(self, st, fr, ins, work, results):
@@ -988,17 +1047,21 @@ class Executor:
             live = []
             for cond, thunk in res.branches:
                 if cond is None or cond is True:
-                    live.append((None, thunk))
+                    live.append((None, thunk, None))
                 elif cond is False:
                     continue
-                elif self.check(st.pc + [cond]):
-                    live.append((cond, thunk))
+                else:
+                    ok, ms = self.sat_under(st, cond)
+                    if ok:
+                        live.append((cond, thunk, ms))
             if not live:
                 return 'dead'
-            for cond, thunk in live[1:]:
+            for cond, thunk, ms in live[1:]:
                 s2 = st.fork()
                 if cond is not None:
                     s2.pc.append(cond)
+                if ms is not None:
+                    s2.models = ms
                 f2 = s2.frames[fr.fid]
                 v2 = thunk(s2)
                 if isinstance(v2, PanicResult):
@@ -1006,9 +1069,11 @@ class Executor:
                     continue
                 self.after_call(s2, f2, dest, ret_bb, v2)
                 work.append(s2)
-            cond, thunk = live[0]
+            cond, thunk, ms = live[0]
             if cond is not None:
                 st.pc.append(cond)
+            if ms is not None:
+                st.models = ms
             v = thunk(st)
             if isinstance(v, PanicResult):
                 self.finish(results, 'panic', st, v.msg)
